@@ -96,7 +96,7 @@ func buildAll(cfgs []config) []built {
 			files := probe.ReadProbe("input")
 			// second schema file + hand-written model whose METHODS receive arguments
 			// (props/c02/probe): Box and PointIn are bound through models:
-			for rel, dst := range map[string]string{"methods.graphql": "methods.graphql", "boxmodel/box.go": "boxmodel/box.go"} {
+			for rel, dst := range map[string]string{"methods.graphql": "methods.graphql", "defaults.graphql": "defaults.graphql", "boxmodel/box.go": "boxmodel/box.go"} {
 				b, err := os.ReadFile(filepath.Join(common.Root, "props", "c02", "probe", rel))
 				if err != nil {
 					probe.Cleanup()
@@ -104,7 +104,7 @@ func buildAll(cfgs []config) []built {
 				}
 				files[dst] = string(b)
 			}
-			files["gqlgen.yml"] = strings.Replace(files["gqlgen.yml"], "  - schema.graphql\n", "  - schema.graphql\n  - methods.graphql\n", 1) +
+			files["gqlgen.yml"] = strings.Replace(files["gqlgen.yml"], "  - schema.graphql\n", "  - schema.graphql\n  - methods.graphql\n  - defaults.graphql\n", 1) +
 				"  Box:\n    model: probe/boxmodel.Box\n  PointIn:\n    model: probe/boxmodel.PointIn\n"
 			yml := files["gqlgen.yml"]
 			if cf.NoMap {
@@ -138,7 +138,7 @@ func buildAll(cfgs []config) []built {
 
 func runAll(builds []built, tier string, deadline time.Time) []c02lib.Result {
 	out := make([]c02lib.Result, len(builds))
-	par := 4
+	par := min(len(builds), 8)
 	workers := max(2, runtime.NumCPU()/par)
 	var wg sync.WaitGroup
 	sem := make(chan struct{}, par)
@@ -209,7 +209,7 @@ func main() {
 		}
 		per = append(per, map[string]any{"config": r.Config, "id_binding": r.IDKind, "positions": r.Positions, "requests": r.Cases,
 			"evaluated": r.Evaluated, "nontrivial": r.Nontrivial, "spec_coerces": r.ExpectCoerce, "spec_rejects": r.ExpectReject,
-			"by_mode": r.ByMode, "verdicts": r.Verdicts, "complete": r.Complete})
+			"run_s": r.RunS, "by_mode": r.ByMode, "verdicts": r.Verdicts, "complete": r.Complete})
 		for _, f := range r.Findings {
 			what := f.What + "\n  request: " + f.Case.Query + "  variables: " + f.Case.Vars + "\n  position: " + f.Case.Pos + " <- " + f.Case.Value + " (" + f.Case.Mode + ")\n  config: " + r.Config
 			data := map[string]any{"config": r.Config, "case": f.Case, "observed": f.Obs}
@@ -264,10 +264,11 @@ func main() {
 		steps = 4
 	}
 	c.Cov["bounds"] = map[string]any{"tier": c.Tier, "configs": len(cfgs), "max_descent_steps_below_argument": steps,
-		"alphabet":          "absent null true 0 -1 1 2147483647 -2147483648 2147483648 -2147483649 9223372036854775807 9223372036854775808 -9223372036854775808 -9223372036854775809 1.0 1.5 1e3 \"1\" \"-1\" \"1.5\" \"abc\" \"\" \"true\" RED red \"RED\" [] [good] [good,good2] [good,null] [null] [each scalar] [[good]] [[]] [good,[good]] {} {required} {required,f:good|null|{}} {required,unknown:1} {unknown:1} {required:null}; numeric positions (Int Float ID IntID UintID and the scalars bound to graphql.Int32/Int64/Uint/Uint32/Uint64/Float, also as list elements) additionally: 4294967295 4294967296 18446744073709551615 18446744073709551616, the strings \"0\" and every 32/64-bit signed/unsigned boundary and its neighbour as a string, \"1e3\" \"1.0\" \"NaN\" \"Infinity\" \"-inf\"",
-		"variables_carrier": "whenever the variable is not provided: {\"variables\" key / URL parameter absent, null, {}, object holding only another key}; otherwise the object holding the variable",
-		"transports":        "every request through handler.Server + transport.POST on an httptest recorder; requests whose variable is absent or null, or whose operation declares a variable default or a non-null variable, and the corpus, additionally through transport.GET",
-		"modes":             "literal; whole argument through a variable; variable nested in a literal object/list; variable with default; non-null variable; nullable variable at a defaulted non-null position"}
+		"alphabet":              "absent null true 0 -1 1 2147483647 -2147483648 2147483648 -2147483649 9223372036854775807 9223372036854775808 -9223372036854775808 -9223372036854775809 1.0 1.5 1e3 \"1\" \"-1\" \"1.5\" \"abc\" \"\" \"true\" RED red \"RED\" [] [good] [good,good2] [good,null] [null] [each scalar] [[good]] [[]] [good,[good]] {} {required} {required,f:good|null|{}} {required,unknown:1} {unknown:1} {required:null}; numeric positions (Int Float ID IntID UintID and the scalars bound to graphql.Int32/Int64/Uint/Uint32/Uint64/Float, also as list elements) additionally: 4294967295 4294967296 18446744073709551615 18446744073709551616, the strings \"0\" and every 32/64-bit signed/unsigned boundary and its neighbour as a string, \"1e3\" \"1.0\" \"NaN\" \"Infinity\" \"-inf\"",
+		"default_literal_forms": "input-field defaults (DefIn/DefInner/NullDef, injected by generated code) and argument defaults (Query.defArgs, applied by gqlparser) in every literal form of the kind: Float as 0 / 2 / -3 / 1e3 / 2.5 / -1.5e-2, Int 0 / negative / max, ID as integer and as string and empty, Boolean, enum, strings empty and with escapes, lists empty / mixed forms [1, 2.5, -3, 1e3] / with null / single value coerced to a list / [[Int]] from 1 and from [1, [2, 3]], nested input-object defaults ({...}, {} picking up inner defaults, a single object for a list), null, custom scalars bound to Int32/Int64/Uint/Uint32/Uint64/IntID/UintID/Float and Lit; variable defaults `$v: T = D` with D over the same forms for every position type, variable not provided (all four carriers) or null; positions under Query.def* use the 6-value small alphabet and one descent step",
+		"variables_carrier":     "whenever the variable is not provided: {\"variables\" key / URL parameter absent, null, {}, object holding only another key}; otherwise the object holding the variable",
+		"transports":            "every request through handler.Server + transport.POST on an httptest recorder; requests whose variable is absent or null, or whose operation declares a variable default or a non-null variable, and the corpus, additionally through transport.GET",
+		"modes":                 "literal; whole argument through a variable; variable nested in a literal object/list; variable with default; non-null variable; nullable variable at a defaulted non-null position"}
 	c.Assume = []string{
 		"gqlparser's parser is trusted to turn query text into AST; validation and coercion are part of what is checked",
 		"Int is Go int (64 bit on this platform): gqlgen documents this binding (docs/content/reference/scalars.md, FIXME in codegen/config/config.go); the probe scalars I32/I64/U/U32/U64/F bound to graphql.Int32/Int64/Uint/Uint32/Uint64/Float have Int (resp. Float) semantics with exactly the range of their Go type: the resolver receives the mathematical value sent or the request is rejected",
